@@ -14,7 +14,7 @@ For N random small functional SCMs (random ADMG with <= 4 nodes, random tables, 
   C  toscm_prdo   random single-world (dos, ev)          == Python P(ev-variables under do(dos) take the ev-values)
   D  toscm_env    the same through `Scm.env`
   E  toscm_envx   two-world conjunction                   == product of the two single-world Python probabilities
-C/D/E check numerically the (not yet mechanised) statement `fscm_toScm_prDo`.
+C/D/E check numerically the statement `fscm_toScm_prDo` (proved in lean/Y0/Lemmas/FscmToScm.lean) and the definition of envX.
 
 usage: /venv/bin/python tools/sem_crosscheck.py [--n 200] [--seed 0] [--per 3]
 exit code 0 iff no disagreement.
